@@ -437,6 +437,14 @@ def run(ctx):
                             bad = f'{call} returned {got[1]!r}, reference conversion of the last occurrence gives {want[1]!r}'
                         elif use_store and not (same(got[2], exp_store) and list(got[2]) == list(exp_store)):
                             bad = f'{call} on store {pre!r} left store = {got[2]!r}, expected {exp_store!r}'
+                    if bad is None:
+                        # reading a parameter is not writing one: after any getter call the request's mapping is still the reference reading
+                        try:
+                            now = dict(req.params)
+                        except Exception as e:  # noqa
+                            now = f'{type(e).__name__}'
+                        if not (isinstance(now, dict) and same(now, dict(m)) and list(now) == list(m)):
+                            bad = f'after {call} the parameter mapping is {now!r}, the reference reading of the query string is {dict(m)!r}'
                     if bad:
                         break
             ctx.oracle(GETTER_ORACLE, bad is None, bad, dict(case, name=key))
@@ -509,7 +517,9 @@ def run(ctx):
         'json': ['{"a":1}', '[1,2]', 'null', 'true', '"é"', '{"a":[1,{"b":null}]}', '{', ' 1 ', 'NaN', '1e999', '"\\ud800"', '[1%2C2]', '{"a"%3A"b%26c"}', "{'a':1}", '1 2'],
         'word': ['a', 'abc', 'x y', 'café', '€', '\U0001F600', 'a%', '%zz', '100%25', 'a=b', '\x00'],
     }
-    KEYS = ['a', 'a', 'b', 'id', 'é', 'a b', '', 'q[]', 'A', 'a%20b', '%61']
+    # (names that are templates of some formatting mini-language must be handled as plain text on every path, the error paths included)
+    KEYS = ['a', 'a', 'b', 'id', 'é', 'a b', '', 'q[]', 'A', 'a%20b', '%61', 'a', 'b',
+            '{0}', '{}', '{id}', 'filter{name}', '}', '{', '{0!r}', '{a.b}', '{0[0]}', '%s', '%(a)s', '%d', '$a', '${a}', '\\', '\\n', '"', "a'b", '<b>', 'a\nb']
 
     def enc_some(s):
         out = []
